@@ -364,21 +364,60 @@ def insertSorted (n : Name) : List Name → List Name
 
 def sortNames (l : List Name) : List Name := l.foldr insertSorted []
 
+/-- `insert_tuples_into`: the checks before anything is written (view, batch arity, stored arity). -/
+def insRefused (s : St) (r : Name) (ts : List Tup) : Option ErrK :=
+  if (aget s.catalog r).isSome then some .view
+  else
+    let ar := (ts.head?.map (·.length)).getD 0
+    if !(ts.all (·.length == ar)) then some .arity
+    else if (match aget s.arity r with | some k => k != ar | none => false) then some .arity
+    else none
+
+/-- `insert_in_memory`: de-duplicating append, invalidation of dependents, publication. -/
+def insApply (s : St) (r : Name) (ts : List Tup) : St × Out :=
+  let ar := (ts.head?.map (·.length)).getD 0
+  let old := (aget s.facts r).getD []
+  let merged := addNew old ts
+  let newCount := merged.length - old.length
+  let s1 : St := { s with facts := aset s.facts r merged, arity := aset s.arity r ar }
+  (if newCount > 0 then publish (mapInc s1 (·.notify r)) else s, .ins newCount (ts.length - newCount))
+
+/-- `RuleCatalog::register_rule`: range restriction, then arity against the first stored clause. -/
+def regRefused (s : St) (c : Clause) : Option ErrK :=
+  if !(clauseSafe c) then some .notSafe
+  else if (match aget s.catalog c.head.rel with
+      | some (c0 :: _) => c0.head.args.length != c.head.args.length
+      | _ => false) then some .arity
+  else none
+
+/-- the clause list of the head after `add_rule` (structurally equal clauses are not added twice). -/
+def regCls (s : St) (c : Clause) : List Clause :=
+  match aget s.catalog c.head.rel with
+  | some cs => if cs.contains c then cs else cs ++ [c]
+  | none => [c]
+
+/-- `KnowledgeGraph::register_rule` after the catalogue accepted the clause. -/
+def regApply (autoMatWorks : Bool) (s : St) (c : Clause) : St × Out :=
+  let n := c.head.rel
+  let s1 : St := { s with catalog := aset s.catalog n (regCls s c) }
+  let s2 : St := mapInc s1 fun i => autoMat autoMatWorks s1 (i.register n (clauseDeps c)) n
+  (publish s2, if (aget s.catalog n).isSome then .regAdded (regCls s c).length else .regCreated)
+
+/-- `clear_relations_by_prefix`: the non-empty stored relations with the prefix, sorted, with counts. -/
+def clrpHit (s : St) (pre : Name) : List (Name × Nat) :=
+  (sortNames ((akeys s.facts).filter fun k => pre.isPrefixOf k)).filterMap fun k =>
+    let c := ((aget s.facts k).getD []).length
+    if c = 0 then none else some (k, c)
+
+def clrpFacts (s : St) (pre : Name) : List (Name × List Tup) :=
+  s.facts.map fun p => (p.1, if (akeys (clrpHit s pre)).contains p.1 then [] else p.2)
+
 def step (autoMatWorks : Bool) (s : St) : Step → St × Out
   | .ins r ts =>
     if ts.isEmpty then (s, .ins 0 0)
-    else if (aget s.catalog r).isSome then (s, .insErr .view)
-    else
-      let ar := (ts.head?.map (·.length)).getD 0
-      if !(ts.all (·.length == ar)) then (s, .insErr .arity)
-      else if (match aget s.arity r with | some k => k != ar | none => false) then (s, .insErr .arity)
-      else
-        let old := (aget s.facts r).getD []
-        let merged := addNew old ts
-        let newCount := merged.length - old.length
-        let s1 : St := { s with facts := aset s.facts r merged, arity := aset s.arity r ar }
-        let s2 := if newCount > 0 then publish (mapInc s1 (·.notify r)) else s
-        (s2, .ins newCount (ts.length - newCount))
+    else match insRefused s r ts with
+      | some k => (s, .insErr k)
+      | none => insApply s r ts
   | .del r ts =>
     match aget s.facts r with
     | none => (s, .del 0)
@@ -389,21 +428,9 @@ def step (autoMatWorks : Bool) (s : St) : Step → St × Out
         (publish (mapInc { s with facts := aset s.facts r kept } (·.notify r)), .del n)
       else (s, .del 0)
   | .reg c =>
-    let n := c.head.rel
-    if !(clauseSafe c) then (s, .regErr .notSafe)
-    else
-      let existing := aget s.catalog n
-      if (match existing with | some (c0 :: _) => c0.head.args.length != c.head.args.length | _ => false)
-      then (s, .regErr .arity)
-      else
-        let cls := match existing with
-          | some cs => if cs.contains c then cs else cs ++ [c]
-          | none => [c]
-        let s1 : St := { s with catalog := aset s.catalog n cls }
-        let s2 : St := match s1.inc with
-          | some i => { s1 with inc := some (autoMat autoMatWorks s1 (i.register n (clauseDeps c)) n) }
-          | none => s1
-        (publish s2, if existing.isSome then .regAdded cls.length else .regCreated)
+    match regRefused s c with
+    | some k => (s, .regErr k)
+    | none => regApply autoMatWorks s c
   | .rmc n k =>
     match aget s.catalog n with
     | none => (s, .rmcErr .missing)
@@ -439,14 +466,10 @@ def step (autoMatWorks : Bool) (s : St) : Step → St × Out
       let s1 : St := { s with facts := aerase s.facts r, arity := aerase s.arity r, catalog := aerase s.catalog r }
       (publish (mapInc s1 (·.remove r)), .drelOk)
   | .clrp pre =>
-    let matching := sortNames ((akeys s.facts).filter fun k => pre.isPrefixOf k)
-    let hit := matching.filterMap fun k =>
-      let c := ((aget s.facts k).getD []).length
-      if c = 0 then none else some (k, c)
-    if hit.isEmpty then (s, .clrp [])
+    if (clrpHit s pre).isEmpty then (s, .clrp [])
     else
-      let s1 : St := { s with facts := s.facts.map fun p => if (akeys hit).contains p.1 then (p.1, []) else p }
-      (publish (mapInc s1 fun i => (akeys hit).foldl Inc.notify i), .clrp hit)
+      let s1 : St := { s with facts := clrpFacts s pre }
+      (publish (mapInc s1 fun i => (akeys (clrpHit s pre)).foldl Inc.notify i), .clrp (clrpHit s pre))
   | .idx =>
     match s.inc with
     | none => ({ s with inc := some { hasIndex := true } }, .idxOk)
@@ -500,5 +523,43 @@ def stepWellUsed (s : St) : Step → Bool
 def wellUsed : St → List Step → Bool
   | _, [] => true
   | s, st :: l => stepWellUsed s st && wellUsed (step codeAutoMat s st).1 l
+
+/-- every body relation of every current clause of `n` has its `base_to_derived` edge to `n`. -/
+def edgesOk (s : St) (i : Inc) (n : Name) : Bool :=
+  (clausesNow s n).all fun c => (bodyRels c).all fun r => ((aget i.b2d r).getD []).contains n
+
+/-- `n` has no valid materialisation. -/
+def notValid (s : St) (n : Name) : Bool :=
+  match s.inc with
+  | none => true
+  | some i => !(isValid i n)
+
+/-- no valid materialisation belongs to a rule that reads `r` directly. -/
+def noValidReads (s : St) (r : Name) : Bool :=
+  match s.inc with
+  | none => true
+  | some i => (validMats i).all fun p => !(((clausesNow s p.1).flatMap bodyRels).contains r)
+
+/-- Side conditions of `C18_partial` for one step, relative to a set `B` of base-relation names.
+    Each conjunct excludes one named situation:
+    * rules read base relations only, heads are not base relations   (derived_on_derived_no_cascade)
+    * no clause is added/removed/replaced/cleared under a valid materialisation (rule_edit_no_invalidate)
+    * no relation is dropped under a valid materialisation that reads it   (drop_relation_no_invalidate)
+    * a relation is materialised only when all its dependency edges are registered (dependency_edge_missing)
+    plus the API contract `stepWellUsed`. -/
+def stepSafe (B : List Name) (s : St) : Step → Bool
+  | .ins r _ => B.contains r
+  | .reg c => !(B.contains c.head.rel) && (bodyRels c).all (B.contains ·) && notValid s c.head.rel
+  | .rep n _ c => c.head.rel == n && !(B.contains n) && (bodyRels c).all (B.contains ·) && notValid s n
+  | .rmc n _ => notValid s n
+  | .clr n => notValid s n
+  | .drel r => noValidReads s r
+  | .mat n ar => !(B.contains n) && stepWellUsed s (.mat n ar) &&
+      (match s.inc with | some i => edgesOk s i n | none => true)
+  | _ => true
+
+def safe (B : List Name) : St → List Step → Bool
+  | _, [] => true
+  | s, st :: l => stepSafe B s st && safe B (step codeAutoMat s st).1 l
 
 end ILV.C18
